@@ -58,7 +58,7 @@ def number_case(apply_filters):
         directed = directed_catfc('number_test')
         qualname = CE + 'number_test'
         case = 'list-backed catalog forecast, apply_filters=%s' % apply_filters
-        properties = ('C10',)
+        properties = ('C10', 'C07')
         loops = {0: NumberLoop()}
 
         def params(c):
